@@ -2,6 +2,7 @@ package main
 
 import (
 	"fmt"
+	"go/token"
 	"sort"
 	"strings"
 
@@ -52,28 +53,43 @@ type twinSite struct {
 // altKeys returns, for a booked value, the alternatives it may take (one per phi arm),
 // each as the set of keys it may be identified by.
 func altKeys(p *Prog, v ssa.Value) [][]string {
-	var alts []ssa.Value
+	var out [][]string
 	seen := map[ssa.Value]bool{}
-	var expand func(v ssa.Value, d int)
-	expand = func(v ssa.Value, d int) {
-		if seen[v] {
+	var expand func(v ssa.Value, suffix string, d int)
+	expand = func(v ssa.Value, suffix string, d int) {
+		if seen[v] && suffix == "" {
 			return
 		}
 		seen[v] = true
 		if ph, ok := v.(*ssa.Phi); ok && d < 4 {
 			for _, e := range ph.Edges {
-				expand(e, d+1)
+				expand(e, suffix, d+1)
 			}
 			return
 		}
-		alts = append(alts, v)
-	}
-	expand(v, 0)
-	var out [][]string
-	for _, a := range alts {
-		ks := map[string]bool{p.ExprKey(a): true}
-		if strings.HasSuffix(a.Type().String(), "types.Coin") || strings.HasSuffix(a.Type().String(), "types.Coins") {
-			for _, k := range p.amountKeys(a) {
+		// a load of a local with several reaching definitions: one alternative per definition
+		if u, ok := v.(*ssa.UnOp); ok && u.Op == token.MUL && d < 4 {
+			base, path := addrBase(u.X)
+			if a, isAlloc := base.(*ssa.Alloc); isAlloc {
+				if defs, entry := reachingStores(a, path, u); !entry && len(defs) > 1 {
+					for _, dd := range defs {
+						rest := path
+						if !dd.whole {
+							rest = path[dd.depth:]
+						}
+						sfx := suffix
+						if len(rest) > 0 {
+							sfx = "." + strings.Join(rest, ".") + suffix
+						}
+						expand(dd.st.Val, sfx, d+1)
+					}
+					return
+				}
+			}
+		}
+		ks := map[string]bool{p.ExprKey(v) + suffix: true}
+		if suffix == "" && (strings.HasSuffix(v.Type().String(), "types.Coin") || strings.HasSuffix(v.Type().String(), "types.Coins")) {
+			for _, k := range p.amountKeys(v) {
 				ks[k] = true
 			}
 		}
@@ -84,6 +100,7 @@ func altKeys(p *Prog, v ssa.Value) [][]string {
 		sort.Strings(l)
 		out = append(out, l)
 	}
+	expand(v, "", 0)
 	return out
 }
 
